@@ -2,8 +2,15 @@
 //! properties: C08 C02
 //! note: ChannelMonitorImpl::block_confirmed, closed channel: forwarded HTLCs still unresolved downstream are failed back upstream once the upstream HTLC is within LATENCY_GRACE_PERIOD_BLOCKS of its expiry, for the HTLCs of the holder commitment and of *both* unrevoked counterparty commitments (current and previous), with an event that names the HTLC and carries no preimage
 //! trusted: R15 (deep slices): block_confirmed: (a) the two `if let Some(txid) = <field>` scrutinees that select the counterparty commitments whose HTLCs are scanned, (b) the expiry test of the per-HTLC loop, (c) the HTLCUpdate pushed as MonitorEvent::HTLCEvent, verbatim as functions; `self.funding.` is written `funding.` (R10); FundingScope is a two-field skeleton, HTLCSource / PaymentHash opaque, HTLCOutputInCommitment field skeleton, struct HTLCUpdate extracted; the holder-commitment iterator, the duplicate / already-failed-back filters and the maturation of on-chain events before this block are dropped and not claimed here
+//! trusted: assume_specification for core::cmp::max / core::cmp::min (std definitions): present in every unit so that a change that introduces them is verified instead of being rejected by the tool
 use vstd::prelude::*;
 verus! {
+use vstd::std_specs::cmp::*;
+use core::cmp;
+pub assume_specification<T: core::cmp::Ord>[core::cmp::max::<T>](a: T, b: T) -> (r: T)
+    ensures T::obeys_cmp_spec() ==> r == (if b.cmp_spec(&a) == core::cmp::Ordering::Less { a } else { b });
+pub assume_specification<T: core::cmp::Ord>[core::cmp::min::<T>](a: T, b: T) -> (r: T)
+    ensures T::obeys_cmp_spec() ==> r == (if b.cmp_spec(&a) == core::cmp::Ordering::Less { b } else { a });
 #[derive(Clone, Copy)] pub struct Txid(pub u64);
 #[derive(Clone, Copy)] pub struct PaymentHash(pub [u8; 32]);
 #[derive(Clone, Copy)] pub struct PaymentPreimage(pub [u8; 32]);
